@@ -148,10 +148,68 @@ func checkC17(p *Program, r *Report) {
 		return
 	}
 	runner := pk.Func("RunSingleModelJSON")
-	enc := pk.Func("encodeResults")
+	// the encoding function: the function of package sim, reached from a deferred call of the runner, that calls
+	// (*json.Encoder).Encode; its writer parameter is the one handed to json.NewEncoder
+	var enc *ssa.Function
+	encW := 0
+	if runner != nil {
+		callsEncode := func(f *ssa.Function) bool {
+			for _, c := range callsIn(f) {
+				if g := c.Common().StaticCallee(); g != nil && g.Name() == "Encode" && fnPkg(g) != nil && fnPkg(g).Path() == "encoding/json" {
+					return true
+				}
+			}
+			return false
+		}
+		var search func(f *ssa.Function, depth int)
+		search = func(f *ssa.Function, depth int) {
+			if f == nil || f.Blocks == nil || enc != nil || depth > 2 || fnPkg(f) != pk.Pkg {
+				return
+			}
+			if callsEncode(f) {
+				enc = f
+				return
+			}
+			for _, c := range callsIn(f) {
+				search(c.Common().StaticCallee(), depth+1)
+			}
+		}
+		eachInstr(runner, func(_ *ssa.BasicBlock, _ int, ins ssa.Instruction) {
+			d, ok := ins.(*ssa.Defer)
+			if !ok {
+				return
+			}
+			if mc, ok := d.Common().Value.(*ssa.MakeClosure); ok {
+				f, _ := mc.Fn.(*ssa.Function)
+				search(f, 0)
+			} else {
+				search(d.Common().StaticCallee(), 0)
+			}
+		})
+		if enc == nil {
+			// not deferred at all (R17.1 will say so): any step of the runner that encodes
+			for _, f := range runnerParts(runner) {
+				if enc == nil && callsEncode(f) {
+					enc = f
+				}
+			}
+		}
+		if enc == nil {
+			enc = pk.Func("encodeResults")
+		}
+	}
 	if runner == nil || enc == nil {
-		r.Undecided("R17.1", "anchors", "-", "RunSingleModelJSON / encodeResults not found")
+		r.Undecided("R17.1", "anchors", "-", "RunSingleModelJSON, or the function that encodes the answer document, not found")
 		return
+	}
+	for _, c := range callsIn(enc) {
+		if f := c.Common().StaticCallee(); f != nil && f.Name() == "NewEncoder" && len(c.Common().Args) == 1 {
+			for i, prm := range enc.Params {
+				if origin1(c.Common().Args[0]) == ssa.Value(prm) {
+					encW = i
+				}
+			}
+		}
 	}
 	// ---- R17.1
 	{
@@ -178,6 +236,13 @@ func checkC17(p *Program, r *Report) {
 			for _, c := range callsIn(callee) {
 				if c.Common().StaticCallee() == enc {
 					def = d
+				}
+				if g := c.Common().StaticCallee(); g != nil && g.Blocks != nil && fnPkg(g) == pk.Pkg {
+					for _, c2 := range callsIn(g) {
+						if c2.Common().StaticCallee() == enc {
+							def = d
+						}
+					}
 				}
 			}
 		})
@@ -235,7 +300,7 @@ func checkC17(p *Program, r *Report) {
 			okW := false
 			for _, c := range callsIn(enc) {
 				if f := c.Common().StaticCallee(); f != nil && f.Name() == "NewEncoder" {
-					if origin1(c.Common().Args[0]) == ssa.Value(enc.Params[0]) {
+					if origin1(c.Common().Args[0]) == ssa.Value(enc.Params[encW]) {
 						okW = true
 					}
 				}
@@ -254,7 +319,7 @@ func checkC17(p *Program, r *Report) {
 		for _, fn := range []*ssa.Function{runner, enc} {
 			w := fn.Params[1]
 			if fn == enc {
-				w = fn.Params[0]
+				w = fn.Params[encW]
 			}
 			var walk func(v ssa.Value)
 			seen := map[ssa.Value]bool{}
@@ -299,7 +364,7 @@ func checkC17(p *Program, r *Report) {
 	{
 		var assumed []string
 		n := 0
-		eachInstr(runner, func(_ *ssa.BasicBlock, _ int, ins ssa.Instruction) {
+		eachInstr(runBody(runner), func(_ *ssa.BasicBlock, _ int, ins ssa.Instruction) {
 			c, ok := ins.(*ssa.Call)
 			if !ok || !c.Common().IsInvoke() {
 				return
@@ -526,32 +591,73 @@ func checkJsonSafe(p *Program, r *Report, enc *ssa.Function) {
 		}
 	})
 	nFields := 0
-	eachInstr(enc, func(_ *ssa.BasicBlock, _ int, ins ssa.Instruction) {
-		st, ok := ins.(*ssa.Store)
-		if !ok {
-			return
+	// the answer document is filled in by the encoding function or by a function of the package it calls
+	// (`overall := run.response(split)`)
+	fillers := []*ssa.Function{enc}
+	for _, c := range callsIn(enc) {
+		if g := c.Common().StaticCallee(); g != nil && g.Blocks != nil && fnPkg(g) == fnPkg(enc) && g != enc {
+			fillers = append(fillers, g)
 		}
-		fa, ok := st.Addr.(*ssa.FieldAddr)
-		if !ok {
-			return
-		}
-		name, _, _ := fieldName(fa)
-		if name != "Outputs" && name != "States" || !types.IsInterface(st.Val.Type()) {
-			return
-		}
-		nFields++
-		if w := safeTree(st.Val, 0); w == "" {
-			r.OK("R17.4", FuncKey(enc)+": RunResults."+name+" is built only from JsonSafeValue/JsonSafeArray results")
-		} else {
-			r.Fail("R17.4", FuncKey(enc)+":"+name, p.Pos(st.Pos()), "RunResults."+name+" is not produced by the JSON-safe conversion: "+w)
-		}
-	})
+	}
+	for _, filler := range fillers {
+		eachInstr(filler, func(_ *ssa.BasicBlock, _ int, ins ssa.Instruction) {
+			st, ok := ins.(*ssa.Store)
+			if !ok {
+				return
+			}
+			fa, ok := st.Addr.(*ssa.FieldAddr)
+			if !ok {
+				return
+			}
+			name, _, _ := fieldName(fa)
+			if name != "Outputs" && name != "States" || !types.IsInterface(st.Val.Type()) {
+				return
+			}
+			nFields++
+			if w := safeTree(st.Val, 0); w == "" {
+				r.OK("R17.4", FuncKey(enc)+": RunResults."+name+" is built only from JsonSafeValue/JsonSafeArray results")
+			} else {
+				r.Fail("R17.4", FuncKey(enc)+":"+name, p.Pos(st.Pos()), "RunResults."+name+" is not produced by the JSON-safe conversion: "+w)
+			}
+		})
+	}
 	if nFields == 0 {
 		r.Undecided("R17.4", FuncKey(enc)+":fields", p.Pos(enc.Pos()), "no assignment of RunResults.Outputs/States found")
 	}
 }
 
+// runnerParts: the runner and the functions of its own package it calls directly or through one of those (the steps a
+// restructured runner is made of), in call order.
+func runnerParts(runner *ssa.Function) []*ssa.Function {
+	out := []*ssa.Function{runner}
+	seen := map[*ssa.Function]bool{runner: true}
+	for i := 0; i < len(out) && i < 40; i++ {
+		for _, c := range callsIn(out[i]) {
+			g := c.Common().StaticCallee()
+			if g == nil || g.Blocks == nil || seen[g] || fnPkg(g) != fnPkg(runner) {
+				continue
+			}
+			seen[g] = true
+			out = append(out, g)
+		}
+	}
+	return out
+}
+
+// runBody: the part of the runner that holds the call of the model's Run.
+func runBody(runner *ssa.Function) *ssa.Function {
+	for _, f := range runnerParts(runner) {
+		for _, c := range callsIn(f) {
+			if c.Common().IsInvoke() && c.Common().Method.Name() == "Run" {
+				return f
+			}
+		}
+	}
+	return runner
+}
+
 func checkWarnings(p *Program, r *Report, pk *ssa.Package, runner *ssa.Function) {
+	body := runBody(runner)
 	// Find: default returned only with a message
 	var find, initialise *ssa.Function
 	for _, fn := range p.PkgFuncs("sim") {
@@ -872,20 +978,23 @@ func checkWarnings(p *Program, r *Report, pk *ssa.Package, runner *ssa.Function)
 	}
 	// runner logs all warnings before Run
 	var runCall *ssa.Call
-	eachInstr(runner, func(_ *ssa.BasicBlock, _ int, ins ssa.Instruction) {
+	eachInstr(body, func(_ *ssa.BasicBlock, _ int, ins ssa.Instruction) {
 		if c, ok := ins.(*ssa.Call); ok && c.Common().IsInvoke() && c.Common().Method.Name() == "Run" {
 			runCall = c
 		}
 	})
 	logged := false
 	if runCall != nil {
-		for _, l := range findLoops(runner) {
+		for _, l := range findLoops(body) {
 			// loop over the warnings value calling a closure with the element
 			hasLog := false
 			for b := range l.Blocks {
 				for _, ins := range b.Instrs {
 					if c, ok := ins.(*ssa.Call); ok && !c.Common().IsInvoke() {
-						if _, isMC := c.Common().Value.(*ssa.MakeClosure); isMC && len(c.Common().Args) == 1 {
+						_, isMC := c.Common().Value.(*ssa.MakeClosure)
+						g := c.Common().StaticCallee()
+						// the log: a local closure, or a function/method of package sim, given the warning
+						if (isMC || g != nil && fnPkg(g) == fnPkg(body)) && len(c.Common().Args) >= 1 {
 							isWarnElem := func(v ssa.Value) bool {
 								u, ok := v.(*ssa.UnOp)
 								if !ok || u.Op != token.MUL {
@@ -906,8 +1015,10 @@ func checkWarnings(p *Program, r *Report, pk *ssa.Package, runner *ssa.Function)
 								cc, ok := ex.Tuple.(*ssa.Call)
 								return ok && cc.Common().StaticCallee() == initialise
 							}
-							if dependsOn(c.Common().Args[0], isWarnElem, map[ssa.Value]bool{}) {
-								hasLog = true
+							for _, a := range c.Common().Args {
+								if dependsOn(a, isWarnElem, map[ssa.Value]bool{}) {
+									hasLog = true
+								}
 							}
 						}
 					}
@@ -1112,40 +1223,70 @@ func checkWarnings(p *Program, r *Report, pk *ssa.Package, runner *ssa.Function)
 	r.Rule("R17.10", "the request is decoded from the caller's reader itself: the argument of json.NewDecoder in the runner is the runner's own io.Reader parameter (a buffering wrapper is accepted); a limiting or transforming wrapper makes the answer depend on the size of the request")
 	{
 		nDec := 0
-		for _, c := range callsIn(runner) {
-			f := c.Common().StaticCallee()
-			if f == nil || f.Name() != "NewDecoder" || fnPkg(f) == nil || fnPkg(f).Path() != "encoding/json" || len(c.Common().Args) != 1 {
-				continue
-			}
-			nDec++
-			key := FuncKey(runner) + ":decoder-source"
-			v := c.Common().Args[0]
-			bad := ""
-			for depth := 0; depth < 6; depth++ {
-				v = origin1(stripConv(v))
-				if prm, ok := v.(*ssa.Parameter); ok && prm.Parent() == runner {
+		parts := runnerParts(runner)
+		for _, part := range parts {
+			for _, c := range callsIn(part) {
+				f := c.Common().StaticCallee()
+				if f == nil || f.Name() != "NewDecoder" || fnPkg(f) == nil || fnPkg(f).Path() != "encoding/json" || len(c.Common().Args) != 1 {
+					continue
+				}
+				nDec++
+				key := FuncKey(runner) + ":decoder-source"
+				v := c.Common().Args[0]
+				cur := part
+				bad := ""
+				for depth := 0; depth < 8; depth++ {
+					v = origin1(stripConv(v))
+					if prm, ok := v.(*ssa.Parameter); ok && prm.Parent() == runner {
+						break
+					}
+					if prm, ok := v.(*ssa.Parameter); ok && prm.Parent() == cur && cur != runner {
+						// a step of the runner that is handed the reader: follow its (single) call site
+						pi := -1
+						for i, fp := range cur.Params {
+							if fp == prm {
+								pi = i
+							}
+						}
+						var site ssa.CallInstruction
+						var siteFn *ssa.Function
+						nSites := 0
+						for _, q := range parts {
+							for _, c2 := range callsIn(q) {
+								if c2.Common().StaticCallee() == cur {
+									site, siteFn = c2, q
+									nSites++
+								}
+							}
+						}
+						if nSites == 1 && pi >= 0 && pi < len(site.Common().Args) {
+							v, cur = site.Common().Args[pi], siteFn
+							continue
+						}
+						bad = "a parameter of " + cur.Name() + " whose caller could not be determined"
+						break
+					}
+					if call, ok := v.(*ssa.Call); ok {
+						g := call.Common().StaticCallee()
+						if g != nil && fnPkg(g) != nil && fnPkg(g).Path() == "bufio" && strings.HasPrefix(g.Name(), "NewReader") && len(call.Common().Args) >= 1 {
+							v = call.Common().Args[0]
+							continue
+						}
+						name := callName(call.Common())
+						if g != nil && fnPkg(g) != nil {
+							name = fnPkg(g).Path() + "." + g.Name()
+						}
+						bad = "the result of " + name
+						break
+					}
+					bad = "a value that is not the runner's reader parameter"
 					break
 				}
-				if call, ok := v.(*ssa.Call); ok {
-					g := call.Common().StaticCallee()
-					if g != nil && fnPkg(g) != nil && fnPkg(g).Path() == "bufio" && strings.HasPrefix(g.Name(), "NewReader") && len(call.Common().Args) >= 1 {
-						v = call.Common().Args[0]
-						continue
-					}
-					name := callName(call.Common())
-					if g != nil && fnPkg(g) != nil {
-						name = fnPkg(g).Path() + "." + g.Name()
-					}
-					bad = "the result of " + name
-					break
+				if bad != "" {
+					r.Fail("R17.10", key, p.Pos(c.Pos()), fmt.Sprintf("the request is decoded from %s, not from the caller's reader: a well-formed request can be cut short or altered before it is parsed, so it is answered with a problem document (or different results) depending on its size", bad))
+				} else {
+					r.OK("R17.10", FuncKey(runner)+": json.NewDecoder reads the caller's reader")
 				}
-				bad = "a value that is not the runner's reader parameter"
-				break
-			}
-			if bad != "" {
-				r.Fail("R17.10", key, p.Pos(c.Pos()), fmt.Sprintf("the request is decoded from %s, not from the caller's reader: a well-formed request can be cut short or altered before it is parsed, so it is answered with a problem document (or different results) depending on its size", bad))
-			} else {
-				r.OK("R17.10", FuncKey(runner)+": json.NewDecoder reads the caller's reader")
 			}
 		}
 		if nDec == 0 {
